@@ -195,6 +195,9 @@ def exhaustive_shard(item: dict[str, Any]) -> Collector:
         grid = percentile_grid(max(m, 1))
         for p in grid:
             flt, cfg = make_filter(n, flavour, p)
+            # (objective flavour, small n) the same orderings once more with a maximised objective - negative weight, positive total -
+            # ranked alone next to a second objective
+            flt_max, cfg_max = make_filter(n, flavour, p, [-0.5, 3.0], [0]) if flavour == "objective" and n <= 4 else (None, None)  # noqa: PLR2004
             base_vals = np.arange(m, dtype=np.float64) * 0.25
             perms = itertools.permutations(range(m)) if m > 0 else [()]
             for perm in perms:
@@ -205,6 +208,13 @@ def exhaustive_shard(item: dict[str, Any]) -> Collector:
                 guard_call(col, case, lambda: run_with_filter(flt, cfg, case, values, failed))  # noqa: B023
                 col.case((n, flavour, mask, perm, p), nontrivial=nontrivial(p, m),
                          classes=(flavour, f"m={m}"), sample=case)
+                if flt_max is not None:
+                    values2 = np.column_stack([values, 1.0 - 3.0 * values])
+                    case2 = {"kind": "filter", "n": n, "flavour": flavour, "failed": list(mask), "values": values2.tolist(), "percentile": p,
+                             "obj_weights": [-0.5, 3.0], "sort": [0]}
+                    guard_call(col, case2, lambda: run_with_filter(flt_max, cfg_max, case2, values2, failed))  # noqa: B023
+                    col.case((n, "objective-maximised", mask, perm, p), nontrivial=nontrivial(p, m),
+                             classes=("objective-maximised", f"m={m}"), sample=case2)
     col.extra["exhaustive"] = True
     return col
 
@@ -245,6 +255,9 @@ def hypothesis_shard(item: dict[str, Any]) -> Collector:
                 if sum(case["obj_weights"]) <= 0:
                     case["obj_weights"][(neg + 1) % k_n] = 3.0
             case["sort"] = sorted(draw(st.sets(st.integers(0, k_n - 1), min_size=1)))
+            negative = [i for i, w_ in enumerate(case["obj_weights"]) if w_ < 0]
+            if negative and draw(st.booleans()):  # the maximised objective is the only one that is ranked
+                case["sort"] = negative[:1]
             case["values"] = [[draw(value) for _ in range(k_n)] for _ in range(n)]
         else:
             case["values"] = draw(st.lists(value, min_size=n, max_size=n))
